@@ -818,15 +818,14 @@ def slot_program(rng, hostile: float) -> str:
 
 # ------------------------------------------------------------------ exhaustive nesting skeletons
 #
-# All block skeletons with at most SKEL_BLOCKS block constructs, nesting depth <= 3 and <= 3 items per body over
-# {plain statement, if, if/else, if/elif/else, foreach}; each is rendered with every trivia of SKEL_TRIVIA at every
+# All block skeletons with a bounded number of block constructs, nesting depth <= 3 and <= 3 items per body over
+# {plain statement, if, if/else, if/elif/else, foreach} (no two plain statements in a row); each is rendered with every trivia of SKEL_TRIVIA at every
 # boundary at once, and with every trivia at each single terminator boundary (the others default to newline).
 
 SKEL_TRIVIA = ['\n', ' ', '\t', '  ', ' \\\n', ' # c\n', ' \\ # c\n  ', '\n\n  ']
-SKEL_BLOCKS = 3
 
 
-def _bodies(blocks: int, depth: int) -> T.Iterator[T.Tuple[T.Tuple, int]]:
+def _bodies(blocks: int, depth: int, maxitems: int = 3) -> T.Iterator[T.Tuple[T.Tuple, int]]:
     """(body, blocks used); a body is a tuple of items; an item is 'P' or (kind, body, ...)"""
     def items(budget: int, n: int) -> T.Iterator[T.Tuple[T.Tuple, int]]:
         if n == 0:
@@ -834,25 +833,27 @@ def _bodies(blocks: int, depth: int) -> T.Iterator[T.Tuple[T.Tuple, int]]:
             return
         for first, used in item(budget):
             for rest, used2 in items(budget - used, n - 1):
+                if first == 'P' and rest and rest[0] == 'P':
+                    continue          # plain statements are interchangeable: no two in a row
                 yield (first,) + rest, used + used2
 
     def item(budget: int) -> T.Iterator[T.Tuple[T.Any, int]]:
         yield 'P', 0
         if budget >= 1 and depth >= 1:
             for kind, nb in (('if', 1), ('ifelse', 2), ('ifelifelse', 3), ('foreach', 1)):
-                for bs, used in _body_tuple(budget - 1, depth - 1, nb):
+                for bs, used in _body_tuple(budget - 1, depth - 1, nb, maxitems):
                     yield (kind,) + bs, used + 1
 
-    for n in range(0, 4):
+    for n in range(0, maxitems + 1):
         yield from items(blocks, n)
 
 
-def _body_tuple(blocks: int, depth: int, nb: int) -> T.Iterator[T.Tuple[T.Tuple, int]]:
+def _body_tuple(blocks: int, depth: int, nb: int, maxitems: int = 3) -> T.Iterator[T.Tuple[T.Tuple, int]]:
     if nb == 0:
         yield (), 0
         return
-    for b, used in _bodies(blocks, depth):
-        for rest, used2 in _body_tuple(blocks - used, depth, nb - 1):
+    for b, used in _bodies(blocks, depth, maxitems):
+        for rest, used2 in _body_tuple(blocks - used, depth, nb - 1, maxitems):
             yield (b,) + rest, used + used2
 
 
@@ -900,24 +901,27 @@ def render_skeleton(toks: T.List[str], trivia_at: T.Dict[int, str], default: str
     return out
 
 
-def skeleton_texts(max_blocks: int = SKEL_BLOCKS, depth: int = 3) -> T.Iterator[str]:
+def skeleton_texts(max_blocks: int = 2, depth: int = 3, maxitems: int = 3, single: bool = True) -> T.Iterator[str]:
+    """every skeleton x (one trivia at all terminator boundaries | one trivia at one boundary, newline elsewhere)"""
     seen = set()
-    for body, _used in _bodies(max_blocks, depth):
+    for body, _used in _bodies(max_blocks, depth, maxitems):
         toks: T.List[str] = []
         skeleton_tokens(body, toks)
         nb = toks.count('<T>')
         if nb == 0:
             continue
-        variants = [render_skeleton(toks, {}, tr) for tr in SKEL_TRIVIA]
-        for k in range(nb):
-            for tr in SKEL_TRIVIA[1:]:
-                variants.append(render_skeleton(toks, {k: tr}, '\n'))
-        for v in variants:
-            for tail in ('\n', ''):
-                txt = v + tail
-                if txt not in seen:
-                    seen.add(txt)
-                    yield txt
+        variants = []
+        for tr in SKEL_TRIVIA:
+            v = render_skeleton(toks, {}, tr)
+            variants += [v + '\n', v]
+        if single:
+            for k in range(nb):
+                for tr in SKEL_TRIVIA[1:6]:
+                    variants.append(render_skeleton(toks, {k: tr}, '\n') + '\n')
+        for txt in variants:
+            if txt not in seen:
+                seen.add(txt)
+                yield txt
 
 
 # ------------------------------------------------------------------ state coverage (which family exercises what)
@@ -1026,9 +1030,6 @@ def _job_codes(codes):
     return _process(codes, True)
 
 
-def _job_skeletons(a):
-    lo, hi = a
-    return _process(list(itertools.islice(skeleton_texts(), lo, hi)), True)
 
 
 def corpus_files() -> T.List[str]:
@@ -1093,8 +1094,8 @@ def run(ctx: Ctx) -> None:
                 'length bound over a 26-token alphabet (single-space rendering), shorter ones over a 50-token alphabet; '
                 'random token soups with trivia; grammar-directed programs with trivia and a hostile stream; table-driven grammar '
                 'derivations with EVERY token boundary filled from the full trivia alphabet (newline optional wherever the parser '
-                'does not need it); ALL nesting skeletons (<=3 block constructs, depth <=3, <=3 items per body) x trivia at each '
-                'terminator boundary; mechanism-'
+                'does not need it); ALL nesting skeletons (quick: <=2 block constructs, <=3 items per body; thorough adds <=3 constructs, depth <=3, '
+                'one item per body) x trivia alphabet at the terminator boundaries; mechanism-'
                 'targeted families; character-level mutations of corpus files. A case is non-trivial when the real parser '
                 'accepts a non-blank input (a tree is built, printed, and every span checked); counted per input.')
     ctx.assumptions += TRUSTED
@@ -1152,15 +1153,20 @@ def run(ctx: Ctx) -> None:
     missing = grammar_table_check(impl()[0])
     if missing:
         ctx.obligation_failed('grammar-table', 'parser productions without an entry in the generator grammar: ' + ', '.join(missing))
+    # all skeletons with <= 2 block constructs (every shape, depth <= 2) with the trivia alphabet at each terminator
+    # boundary; the deep tier adds all skeletons with <= 3 constructs, depth <= 3, one item per body
+    skel = list(skeleton_texts(2, 3, 3, True))
+    if ctx.deep:
+        have = set(skel)
+        skel += [t for t in skeleton_texts(3, 3, 1, True) if t not in have]
+    ctx.tag('skeleton-texts', len(skel))
+    for ch in chunks(skel, 4000):
+        jobs.append(('nesting-skeletons', _job_codes, ch))
     slotp = []
     for i in range(ctx.scale(14000, 200000)):
         slotp.append(slot_program(rng, 0.0 if i % 3 else 0.35))
     for ch in chunks(slotp, 1500):
         jobs.append(('grammar-slots', _job_codes, ch))
-    nskel = sum(1 for _ in skeleton_texts())
-    ctx.tag('skeleton-texts', nskel)
-    for lo in range(0, nskel, 3000):
-        jobs.append(('nesting-skeletons', _job_skeletons, (lo, lo + 3000)))
     targ = [targeted(rng) for _ in range(ctx.scale(12000, 150000))]
     for ch in chunks(targ, 3000):
         jobs.append(('targeted', _job_codes, ch))
